@@ -336,6 +336,10 @@ func runC03(c *wk.Ctx) {
 	nSampled := c.N(6000, 2000000)
 	total := nEnum + int64(len(ooCases)) + nSampled
 	builtOO := map[*gen.Shape]schema.Type{}
+	if c.Mine(0) {
+		c.Begin(0, "directed: struct values of inlined one-of members whose discriminator field is unset")
+		c03UnsetDiscriminator(c)
+	}
 	c.Cases(total, func(idx int64, r *wk.Rand) {
 		env := &gen.Env{}
 		switch {
@@ -575,6 +579,87 @@ func c03NativeForm(c *wk.Ctx, t schema.Type, shape *gen.Shape, env *gen.Env, nat
 		}
 	}
 	_ = reflect.TypeOf
+}
+
+// c03UnsetDiscriminator: an inlined one-of whose members are struct-mapped. A native value is routed by its Go type;
+// its discriminator field may be unset (a nil pointer, or the zero value of a treat-empty-as-default property). The
+// discriminator is passed on all the same: what Serialize returns carries it, and the one-of accepts that mapping
+// and routes it to the same member.
+func c03UnsetDiscriminator(c *wk.Ctx) {
+	opt := func(t schema.Type) *schema.PropertySchema {
+		return schema.NewPropertySchema(t, nil, false, nil, nil, nil, nil, nil)
+	}
+	str, num := func() schema.Type { return schema.NewStringSchema(nil, nil, nil) }, func() schema.Type { return schema.NewIntSchema(nil, nil, nil) }
+	sp := func(v string) *string { return &v }
+	ip := func(v int64) *int64 { return &v }
+	type tcase struct {
+		descr   string
+		t       schema.Type
+		disc    string
+		natives []any
+		keys    []any
+	}
+	var cases []tcase
+	if p, site, msg, _ := wk.Guard(func() {
+		m16 := schema.NewStructMappedObjectSchema[gen.P16]("M16", map[string]*schema.PropertySchema{"x": opt(num()), "y": opt(str())})
+		m17 := schema.NewStructMappedObjectSchema[gen.P17]("M17", map[string]*schema.PropertySchema{"x": opt(num()), "z": opt(str())})
+		cases = append(cases, tcase{"one_of_int(x, inlined){1: M16(struct P16){x: int, y: string}, 2: M17(struct P17){x: int, z: string}}",
+			schema.NewOneOfIntSchema[any](map[int64]schema.Object{1: m16, 2: m17}, "x", true), "x",
+			[]any{gen.P16{Y: sp("a")}, gen.P17{Z: sp("b")}, gen.P16{X: ip(1), Y: sp("c")}, gen.P17{}, gen.P17{X: ip(2)}}, []any{int64(1), int64(2), int64(1), int64(2), int64(2)}})
+		m4 := schema.NewStructMappedObjectSchema[gen.P4]("M4", map[string]*schema.PropertySchema{"kind": opt(str()).TreatEmptyAsDefaultValue(), "x": opt(num()).TreatEmptyAsDefaultValue()})
+		m4b := schema.NewStructMappedObjectSchema[gen.P4b]("M4b", map[string]*schema.PropertySchema{"kind": opt(str()).TreatEmptyAsDefaultValue(), "z": opt(str())})
+		cases = append(cases, tcase{"one_of_string(kind, inlined){a: M4(struct P4){kind: string (empty is default), x: int}, b: M4b(struct P4b){kind: string (empty is default), z: string}}",
+			schema.NewOneOfStringSchema[any](map[string]schema.Object{"a": m4, "b": m4b}, "kind", true), "kind",
+			[]any{gen.P4{X: 5}, gen.P4b{Z: sp("s")}, gen.P4{Kind: "a", X: 6}, gen.P4b{}, gen.P4{}}, []any{"a", "b", "a", "b", "a"}})
+	}); p {
+		c.Violation("C03:directed-shape-not-built:"+site, "the hand-written inlined one-of over struct-mapped members could not be built: "+msg, nil)
+		return
+	}
+	for _, tc := range cases {
+		for i, nat := range tc.natives {
+			wit := map[string]any{"schema": tc.descr, "native": fmt.Sprintf("%#v", nat), "member_key": tc.keys[i]}
+			var verr, serr, uerr, serr2 error
+			var ser, back, ser2 any
+			c.Note("unset discriminator: " + fmt.Sprintf("%T #%d", nat, i))
+			if p, site, msg, _ := wk.Guard(func() {
+				verr = tc.t.Validate(nat)
+				ser, serr = tc.t.Serialize(nat)
+			}); p {
+				c.Violation("C03:panic:Serialize:"+site, "Validate / Serialize panicked on a member value with an unset discriminator field: "+msg, wit)
+				continue
+			}
+			c.Count("native_form_checks")
+			c.Eval(wk.Hash64("unset-discriminator", tc.descr, fmt.Sprint(i)), true)
+			if (verr == nil) != (serr == nil) {
+				c.Violation("C03:validate-serialize-disagree:one-of", fmt.Sprintf("Validate: %v; Serialize: %v", verr, serr), wit)
+				continue
+			}
+			if serr != nil {
+				c.Count("unset_discriminator:rejected")
+				continue
+			}
+			m, isMap := ser.(map[string]any)
+			if !isMap || fmt.Sprintf("%T:%v", m[tc.disc], m[tc.disc]) != fmt.Sprintf("%T:%v", tc.keys[i], tc.keys[i]) {
+				wit["serialized"] = clipStr(cmpx.Canon(ser), 500)
+				c.Violation("C03:discriminator-not-passed-on:Serialize", fmt.Sprintf("an inlined one-of passes the discriminator on, but the serialized value of a %T (member %v) has %q = %v", nat, tc.keys[i], tc.disc, m[tc.disc]), wit)
+				continue
+			}
+			if p, site, msg, _ := wk.Guard(func() {
+				back, uerr = tc.t.Unserialize(gen.CopyRaw(ser))
+				if uerr == nil {
+					ser2, serr2 = tc.t.Serialize(back)
+				}
+			}); p {
+				c.Violation("C03:panic:Unserialize:"+site, "Unserialize panicked on the one-of's own serialized value: "+msg, wit)
+				continue
+			}
+			if uerr != nil || serr2 != nil || reflect.TypeOf(back) != reflect.TypeOf(nat) || cmpx.Canon(ser2) != cmpx.Canon(ser) {
+				wit["serialized"] = clipStr(cmpx.Canon(ser), 500)
+				c.Violation("C03:serialized-not-routed-back", fmt.Sprintf("the one-of does not take back what it serialized (member %v): Unserialize: %v, result %T, serialized again: %v %s", tc.keys[i], uerr, back, serr2, clipStr(cmpx.Canon(ser2), 300)), wit)
+			}
+			c.Count("unset_discriminator:accepted")
+		}
+	}
 }
 
 func init() { register("C03", runC03) }
